@@ -6,7 +6,8 @@
    2. With snapshot_every_n_steps = 0 (no snapshots: the state dict is the initial snapshot plus the number of steps) the
       whole statement C01 follows for every configuration, every k and every pair of arrival schedules. *)
 From Coq Require Import List Arith Bool Lia.
-From PD Require Import Base SdlModel SdlProofs SdlMapProofs SdlIterWorker SdlIterRef SdlIterProofs.
+From PD Require Import Base SdlModel SdlProofs SdlMapProofs SdlIterWorker.
+From PD Require Import SdlIterRef SdlIterProofs.
 Import ListNotations.
 Open Scope nat_scope.
 
@@ -29,6 +30,17 @@ Hypothesis Ha0 : forall w, w < W -> a0 cyc0 w <= nb B w.
 Lemma cyc0_lt : cyc0 < W.
 Proof. unfold cyc0. apply Nat.mod_upper_bound. lia. Qed.
 
+Let wk0 : nat -> wk := fun w => nth w workers wk_fresh.
+
+Lemma resume_entries_ok : entries_ok c wk0 workers (sn_workers sn) sn.
+Proof.
+  destruct Hws as [Hlen _]. assert (length (sn_workers sn) = W) as Hl by (unfold workers in Hlen; rewrite map_length in Hlen; exact Hlen).
+  split; [intros w Hw; split; reflexivity|]. split; [exact Hl|]. split; [|reflexivity].
+  intros w Hw. unfold wk0, workers.
+  change wk_fresh with ((fun sv : wsave => wk_restored (fst sv, snd sv)) (0, false)). rewrite map_nth. cbn.
+  destruct (nth w (sn_workers sn) (0, false)); reflexivity.
+Qed.
+
 Theorem resume_main_exact : forall sched, sd_steps d <= length (refsuf W B 0 cyc0) ->
   let '(sr, sched') := sdl_resume c d sched in
   outcomes c (S (length (refsuf W B 0 cyc0) - sd_steps d)) sr sched' = map OBatch (skipn (sd_steps d) (refsuf W B 0 cyc0)) ++ [OStop].
@@ -38,12 +50,12 @@ Proof.
   replace (map (fun sv : wsave => wk_restored (fst sv, if true then snd sv else false)) (sn_workers sn)) with workers by reflexivity.
   match goal with |- context [iter_n (try_put_index c) (c_P c * W) ?S] =>
     assert (S = init0 c cyc0 workers (sn_step sn) (fst (sn_main sn)) (snd (sn_main sn)) (sn_last sn) (sn_workers sn) sn) as -> by reflexivity end.
-  destruct (start_iter c Hkind HW HP B cyc0 cyc0_lt Ha0 workers (sn_step sn) (fst (sn_main sn)) (snd (sn_main sn)) (sn_last sn) (sn_workers sn) sn Hws)
-    as (gw & rd & R & H & HR & HA & HS & Eny).
-  cbn zeta in H, HR, HA, HS, Eny.
+  destruct (start_iter c Hkind HW HP B cyc0 cyc0_lt Ha0 wk0 workers (sn_step sn) (fst (sn_main sn)) (snd (sn_main sn)) (sn_last sn) (sn_workers sn) sn Hws resume_entries_ok)
+    as (gw & rd & R & H & HR & HA & HS & Eny & HWw).
+  cbn zeta in H, HR, HA, HS, Eny, HWw.
   set (s3 := iter_n (try_put_index c) (c_P c * W) _) in *.
-  destruct (replay_iter c Hkind HW HP B cyc0 cyc0_lt (sd_steps d) gw rd (a0 cyc0) R s3 (refsuf W B 0 cyc0) sched Hsteps H HR HA HS)
-    as (s4 & sched4 & gw' & rd' & a' & R' & E & H4 & HR4 & HA4 & HS4 & _).
+  destruct (replay_iter c Hkind HW HP B cyc0 cyc0_lt wk0 (sd_steps d) gw rd (a0 cyc0) R s3 (refsuf W B 0 cyc0) sched Hsteps H HR HA HS HWw)
+    as (s4 & sched4 & gw' & rd' & a' & R' & E & H4 & HR4 & HA4 & HS4 & _ & HW4).
   rewrite E.
   match goal with |- outcomes c _ ?S _ = _ => set (sF := S) end.
   assert (agree s4 sF) as Hag by (unfold agree, sF; cbn; repeat split; reflexivity).
@@ -53,7 +65,8 @@ Proof.
   pose proof (Rest_agree c B gw' rd' R' s4 sF _ HR4 Hag) as HRF.
   pose proof (Act_agree c gw' rd' a' s4 sF HA4 Hag) as HAF.
   pose proof (InvS_ext c B (m_ny s4) gw' rd' s4 sF HS4 HagS ltac:(rewrite Hinf; reflexivity)) as HSF.
-  pose proof (outcomes_iter c Hkind HW HP B cyc0 cyc0_lt (skipn (sd_steps d) (refsuf W B 0 cyc0)) gw' rd' a' R' sF sched4 HF HRF HAF HSF) as Hout.
+  assert (InvW c cyc0 wk0 gw' rd' a' sF) as HWF by (apply (InvW_ext c cyc0 wk0 gw' rd' a' s4 sF HW4); [unfold agreeW; repeat split; reflexivity | intros; reflexivity]).
+  pose proof (outcomes_iter c Hkind HW HP B cyc0 cyc0_lt wk0 (skipn (sd_steps d) (refsuf W B 0 cyc0)) gw' rd' a' R' sF sched4 HF HRF HAF HSF HWF) as Hout.
   rewrite skipn_length in Hout. exact Hout.
 Qed.
 
@@ -167,12 +180,9 @@ Theorem iter_resume_exact_I0 : forall k sched1 sched2, k <= length (reference c)
   outcomes c (S (length (reference c) - k)) sr sched' = map OBatch (skipn k (reference c)) ++ [OStop].
 Proof.
   intros k sched1 sched2 Hk.
-  destruct (start_iter c Hkind HW HP (Bw c) 0 HW ltac:(intros w _; cbn; lia) (repeat wk_fresh (c_W c)) 0 0 0 (c_W c - 1)
-              (repeat (0, false) (c_W c)) snap0 (fresh_workers_ok c Hkind)) as (gw & rd & R & H & HR & HA & HS & Eny).
-  cbn zeta in H, HR, HA, HS, Eny. change (iter_n (try_put_index c) (c_P c * c_W c) _) with (sdl_fresh c) in *.
-  rewrite (refsuf_start c Hkind HW) in HR.
-  destruct (replay_iter c Hkind HW HP (Bw c) 0 HW k gw rd (a0 0) R (sdl_fresh c) (reference c) sched1 Hk H HR HA HS)
-    as (sk & sched1' & gw' & rd' & a' & R' & E & _ & _ & _ & _ & Enk).
+  destruct (fresh_start c Hkind HW HP) as (gw & rd & R & H & HR & HA & HS & Eny & HWw).
+  destruct (replay_iter c Hkind HW HP (Bw c) 0 HW wk_fresh0 k gw rd (a0 0) R (sdl_fresh c) (reference c) sched1 Hk H HR HA HS HWw)
+    as (sk & sched1' & gw' & rd' & a' & R' & E & _ & _ & _ & _ & Enk & _).
   pose proof (replay_snap k (sdl_fresh c) sched1) as Hsn. rewrite E in *. cbn [fst] in Hsn.
   assert (m_snapshot (sdl_fresh c) = snap0) as Hs0 by (unfold sdl_fresh; rewrite iter_put_snap; reflexivity).
   rewrite Hs0 in Hsn. rewrite Eny in Enk. cbn in Enk.
